@@ -2,7 +2,7 @@
  *
  *   priv <programs-file> <first> <last>        runs programs first..last-1 of the file, in sequence
  * A line of the file is "<A> <B> <pattern>": rank r runs A if (pattern==0 ? r==0 : r%2==0) else B ("-" = empty program).
- * Ops: G write globals (.bss and .data), S write statics (file-scope .bss/.data and a function-local static),
+ * Ops: G write globals (.bss, .data and the last element of a 64 kB .bss array), S write statics (file-scope .bss/.data and a function-local static),
  *      C check own values, B MPI_Barrier, R ring Sendrecv of one int from/to *global* buffers (eager, detached copy),
  *      Q ring Sendrecv of 1 kB from/to global arrays (above smpi/send-is-detached-thresh:128, not detached: copied by the kernel while another rank is loaded),
  *      Z sleep for a rank-dependent time.
@@ -25,13 +25,15 @@ int g_xfer;
 int g_recv;
 int g_bigs[BIG];
 int g_bigr[BIG];
+#define FAR 16384
+int g_far[FAR]; /* its last element is 64 kB further: in the anonymous part of .bss, after the file-backed rw- mapping */
 static int* fstatic(void)
 {
   static int f_static = 11;
   return &f_static;
 }
-enum { V_GBSS, V_GDATA, V_SBSS, V_SDATA, V_FSTATIC, NVARS };
-static const char* const vname[NVARS] = {"g_bss", "g_data", "s_bss", "s_data", "f_static"};
+enum { V_GBSS, V_GDATA, V_SBSS, V_SDATA, V_FSTATIC, V_GFAR, NVARS };
+static const char* const vname[NVARS] = {"g_bss", "g_data", "s_bss", "s_data", "f_static", "g_far_last"};
 
 struct st { /* lives in main's frame */
   int rank, np, idx, step, nsync, pviol;
@@ -52,6 +54,8 @@ static int* var(int v)
       return &s_bss;
     case V_SDATA:
       return &s_data;
+    case V_GFAR:
+      return &g_far[FAR - 1];
     default:
       return fstatic();
   }
@@ -139,6 +143,7 @@ static void run_program(struct st* s, const char* ops)
       switch (ops[s->step]) {
         case 'G':
           write_vars(s, V_GBSS, V_GDATA, serial);
+          write_vars(s, V_GFAR, V_GFAR, serial);
           break;
         case 'S':
           write_vars(s, V_SBSS, V_FSTATIC, serial);
@@ -185,7 +190,7 @@ int main(int argc, char** argv)
   }
   int first = atoi(argv[2]), last = atoi(argv[3]);
   /* initial values of the loader, before anything was written */
-  s.exp[V_GBSS] = 0, s.exp[V_GDATA] = 7, s.exp[V_SBSS] = 0, s.exp[V_SDATA] = 9, s.exp[V_FSTATIC] = 11;
+  s.exp[V_GBSS] = 0, s.exp[V_GDATA] = 7, s.exp[V_SBSS] = 0, s.exp[V_SDATA] = 9, s.exp[V_FSTATIC] = 11, s.exp[V_GFAR] = 0;
   s.a = s.b = "init";
   s.idx     = -1;
   check(&s);
